@@ -59,19 +59,24 @@ theorem set_position_outcomes (r : Role) (e : EvalRes) (hr : r ≠ .trajectory) 
     CallOut.okDiverging ∉ allowed false r e := by
   cases r <;> first | exact absurd rfl hr | (simp only [allowed, Bool.false_eq_true, if_false]; split <;> simp)
 
-/-- **C05, the part that holds** — for every fault kind other than an unrecoverable error, at a trajectory
-    leapfrog or a step-size-search trial, of `set_position` or `draw`: the call does not fail.
-    (`…_partial`: the `init_state` evaluation of the step-size re-initialisation inside `draw` is excluded —
-    see `reinit_fault_is_err`.) -/
+/-- **C05** — for every fault kind other than an unrecoverable error, at ANY evaluation of a `draw` call (trajectory
+    leapfrog, step-size-search trial, or the re-evaluation of the current point that starts the re-initialised search): the call
+    does not fail. -/
+theorem nonfatal_fault_never_fails (r : Role) (k : FaultKind)
+    (hr : r = .trial ∨ r = .trajectory ∨ r = .initState) (hk : k ≠ .unrecoverable) :
+    CallOut.err ∉ allowed true r (evalOf k) := by
+  rcases hr with rfl | rfl | rfl <;> cases k <;> first | decide | exact absurd rfl hk
+
+/-- the same for the step-size-search trials of `set_position` (its initial evaluations reject the point instead) -/
 theorem nonfatal_fault_never_fails_partial (isDraw : Bool) (r : Role) (k : FaultKind)
     (hr : r = .trial ∨ r = .trajectory) (hk : k ≠ .unrecoverable) :
     CallOut.err ∉ allowed isDraw r (evalOf k) := by
   rcases hr with rfl | rfl <;> cases isDraw <;> cases k <;> first | decide | exact absurd rfl hk
 
-/-- **Known finding, as modelled**: the step-size re-initialisation after the first mass-matrix change evaluates
-    the density again at the current state through `init_state(..)?`; any fault of that evaluation — including
-    a *recoverable* error — fails the whole `draw` call instead of discarding the search. -/
-theorem reinit_fault_is_err (k : FaultKind) : allowed true .initState (evalOf k) = [.err] := by
-  cases k <;> rfl
+/-- the re-initialisation of the step size inside `draw` discards the search when its start evaluation is unusable
+    (this was a defect — the call failed — until fix 843cd15) -/
+theorem reinit_fault_discarded (k : FaultKind) (hk : k ≠ .unrecoverable) :
+    allowed true .initState (evalOf k) = [.ok, .okDiverging] := by
+  cases k <;> first | rfl | exact absurd rfl hk
 
 end NutsModel.C05
